@@ -485,4 +485,305 @@ Section Bridge.
       rewrite slice_from. reflexivity.
     - unfold fids in H. rewrite H. reflexivity.
   Qed.
+  (* ---------------------------------------------------------------- Deque.__set__ *)
+
+  Theorem generated_deque_each : forall item sz u a im name nm iattrs v,
+      name_ok name = true ->
+      set_result (Src_Deque_set re_match (rec_of [item]) nm (coll_self name (OFld 0) sz u a im) (OObj KInst iattrs) (OVal v))
+      = vset re_match e (FSeqEach SeqDeque item sz u) v.
+  Proof.
+    intros item sz u a im name nm iattrs v Hn.
+    unfold Src_Deque_set.
+    sx2. change co_no_self with no_self. rewrite generated_verify_deque.
+    destruct v; try reflexivity.
+    cbn [vset seq_items]. destruct (uniq_check u l) as [[]|x1]; cbn [bind]; [|reflexivity].
+    rewrite validate_size_self, generated_validate_size_deque.
+    destruct (size_check sz (lenZ l)) as [[]|x1]; cbn [bind]; [|reflexivity].
+    pose proof (extract_spec (rec_of [item]) name sz u a im SeqDeque l nm Hn) as H.
+    cbn [seq_make kcls] in H.
+    change (rec_of [item] 0%nat) with (fun x => vset re_match e item x) in H.
+    destruct (mapM (fun x => vset re_match e item x) l) as [r|x1].
+    - destruct H as (nm' & H). rewrite H. sx2. reflexivity.
+    - rewrite H. reflexivity.
+  Qed.
+
+  Theorem generated_deque_any : forall (rec : nat -> pyval -> res pyval) sz u a im name nm iattrs v,
+      set_result (Src_Deque_set re_match rec nm (coll_self name (OVal PNone) sz u a im) (OObj KInst iattrs) (OVal v))
+      = vset re_match e (FSeqAny SeqDeque sz u) v.
+  Proof.
+    intros rec sz u a im name nm iattrs v.
+    unfold Src_Deque_set.
+    sx2. change co_no_self with no_self. rewrite generated_verify_deque.
+    destruct v; try reflexivity.
+    cbn [vset seq_items]. destruct (uniq_check u l) as [[]|x1]; cbn [bind]; [|reflexivity].
+    rewrite validate_size_self, generated_validate_size_deque.
+    destruct (size_check sz (lenZ l)) as [[]|x1]; cbn [bind]; reflexivity.
+  Qed.
+
+  Lemma deque_pos_loop fs name items_obj sz u a im l :
+    name_ok name = true ->
+    forall n j i k_after attrs acc nm,
+      i = Z.of_nat j -> validating attrs = true ->
+      match zip_idx fs l j n with
+      | Ok r => exists attrs' nm', validating attrs' = true /\
+          Src_Deque_set_loop1 re_match (rec_of fs) (coll_self name items_obj sz u a im) (OVal (PDeque l)) k_after
+            (enum_from i (map OFld (seq j n))) (OObj KScratch attrs) (OVal (PDeque acc)) nm
+          = k_after (OObj KScratch attrs') (OVal (PDeque (acc ++ r))) nm'
+      | Raise x =>
+          Src_Deque_set_loop1 re_match (rec_of fs) (coll_self name items_obj sz u a im) (OVal (PDeque l)) k_after
+            (enum_from i (map OFld (seq j n))) (OObj KScratch attrs) (OVal (PDeque acc)) nm = Raise x
+      end.
+  Proof.
+    intros Hn. induction n as [|n IH]; intros j i k_after attrs acc nm Hi Hv; subst i;
+      cbn [zip_idx seq map enum_from Src_Deque_set_loop1].
+    - exists attrs, nm. rewrite app_nil_r. split; [exact Hv | reflexivity].
+    - sx2. rewrite len_le_nth.
+      destruct (nth_error l j) as [x|] eqn:E.
+      + sx2. cbn [co_field_set]. rewrite Hv.
+        destruct (rec_of fs j x) as [nf|ex]; cbn [bind]; [|reflexivity].
+        sx2.
+        match goal with
+        | |- context [Src_Deque_set_loop1 _ _ _ _ _ (enum_from ?i' _) (OObj KScratch ?at') _ ?nm'] =>
+            specialize (IH (S j) i' k_after at' (acc ++ [nf]) nm')
+        end.
+        rewrite validating_set in IH by (apply elem_name_ok; exact Hn).
+        specialize (IH ltac:(lia) Hv).
+        destruct (zip_idx fs l (S j) n) as [r|ex]; cbn [bind].
+        * destruct IH as (attrs' & nm' & Hv' & IH). exists attrs', nm'. split; [exact Hv'|].
+          rewrite IH. rewrite <- app_assoc. reflexivity.
+        * exact IH.
+      + cbn [bind]. apply IH; [lia | exact Hv].
+  Qed.
+
+  Lemma range_seq (G : Z -> cobj) : forall m a n,
+      map (fun i => G (Z.of_nat n + Z.of_nat i)) (seq a m) = map (fun i => G (Z.of_nat i)) (seq (n + a) m).
+  Proof.
+    induction m as [|m IH]; intros a n; [reflexivity|]. cbn [seq map]. f_equal.
+    - rewrite Nat2Z.inj_add. reflexivity.
+    - rewrite IH. rewrite Nat.add_succ_r. reflexivity.
+  Qed.
+
+  Lemma skipn_nth {A} (l : list A) j x : nth_error l j = Some x -> skipn j l = x :: skipn (S j) l.
+  Proof.
+    revert j. induction l as [|y l IH]; intros [|j] H; try discriminate H.
+    - inversion H. reflexivity.
+    - cbn [nth_error] in H. cbn [skipn]. rewrite (IH j H). reflexivity.
+  Qed.
+
+  (* for i in range(len(self.items), len(value)): res.append(value[i]) *)
+  Lemma deque_tail_loop (rec : nat -> pyval -> res pyval) l :
+    forall m j k_after acc nm,
+      (j + m = length l)%nat ->
+      Src_Deque_set_loop2 re_match rec (OVal (PDeque l)) k_after
+        (map (fun i => OVal (zint (Z.of_nat i))) (seq j m)) (OVal (PDeque acc)) nm
+      = k_after (OVal (PDeque (acc ++ skipn j l))) nm.
+  Proof.
+    induction m as [|m IH]; intros j k_after acc nm Hj; cbn [seq map Src_Deque_set_loop2].
+    - rewrite skipn_all2 by lia. rewrite app_nil_r. reflexivity.
+    - sx2. destruct (nth_error l j) as [x|] eqn:E; [|apply nth_error_None in E; lia].
+      sx2. rewrite IH by lia. rewrite (skipn_nth l j x E). rewrite <- app_assoc. reflexivity.
+  Qed.
+
+  Theorem generated_deque_pos : forall items sz u additional im name nm iattrs v,
+      name_ok name = true -> validating iattrs = true ->
+      set_result (Src_Deque_set re_match (rec_of items) nm (coll_self name (OFlds (fids items)) sz u additional im)
+                                (OObj KInst iattrs) (OVal v))
+      = vset re_match e (FSeqPos SeqDeque items sz u additional) v.
+  Proof.
+    intros items sz u additional im name nm iattrs v Hn Hi.
+    rewrite vset_seqpos. unfold Src_Deque_set.
+    sx2. change co_no_self with no_self. rewrite generated_verify_deque.
+    destruct v; try reflexivity.
+    cbn [seq_items]. destruct (uniq_check u l) as [[]|x1]; cbn [bind]; [|reflexivity].
+    rewrite validate_size_self, generated_validate_size_deque.
+    destruct (size_check sz (lenZ l)) as [[]|x1]; cbn [bind]; [|reflexivity].
+    destruct (inst_flag_skip nm iattrs Hi) as (y & Hy & Hyt & Hyv). rewrite !Hy. cbn [bind]. rewrite Hyt.
+    sx2. cbn [py_not bind negb].
+    assert (Hfl : length (fids items) = length items) by apply seq_length.
+    rewrite !Hfl.
+    assert (Htest : py_or (Ok (lenZ' l <? Z.of_nat (length items)))
+                      (fun _ : unit => py_and (co_truthy (co_bool match optb_val additional with PBool false => true | _ => false end))
+                                              (fun _ : unit => Ok (Z.of_nat (length items) <? lenZ' l)))
+                    = Ok (pos_len_bad items additional l)).
+    { unfold pos_len_bad, lenZ, lenZ'. cbn [py_or py_and bind co_truthy co_bool py_truthy].
+      destruct (Z.of_nat (length l) <? Z.of_nat (length items)); cbn [orb]; [reflexivity|].
+      destruct additional as [[|]|]; reflexivity. }
+    rewrite Htest. cbn [bind].
+    destruct (pos_len_bad items additional l) eqn:Hbad; [reflexivity|].
+    cbn [co_setattr_own co_iter co_call bind]. unfold co_enumerate, fids.
+    match goal with
+    | |- context [Src_Deque_set_loop1 _ _ _ _ ?ka _ (OObj KScratch ?at0) _ ?nm0] =>
+        pose proof (deque_pos_loop items name (OFlds (seq 0 (length items))) sz u additional im l Hn
+                      (length items) 0%nat 0 ka at0 [] nm0 eq_refl (Hyv _ scratch0_validating)) as H
+    end.
+    pose proof (zip_idx_zipM items l [] [] eq_refl) as Hz. cbn [app length] in Hz. rewrite Hz in H. clear Hz.
+    rewrite pos_arr_zip.
+    destruct (zipM items l) as [r|ex]; cbn [bind].
+    - destruct H as (attrs' & nm' & _ & H). rewrite H. sx2. rewrite seq_length.
+      assert (Hle : (length items <= length l)%nat).
+      { unfold pos_len_bad, lenZ in Hbad. apply orb_false_iff in Hbad. destruct Hbad as [Hb _].
+        apply Z.ltb_ge in Hb. lia. }
+      cbn [co_range co_val bind as_int zint app]. unfold lenZ'.
+      replace (Z.to_nat (Z.of_nat (length l) - Z.of_nat (length items))) with (length l - length items)%nat by lia.
+      rewrite (range_seq (fun z => OVal (zint z))). rewrite Nat.add_0_r.
+      rewrite deque_tail_loop by lia. sx2.
+      cbn [co_iter_vals py_iter bind set_result seq_make app]. reflexivity.
+    - rewrite H. reflexivity.
+  Qed.
+  (* ---------------------------------------------------------------- Tuple.__set__ *)
+
+  Fixpoint pos_tup (fs : list field) (vs : list pyval) {struct fs} : res (list pyval) :=
+    match fs, vs with
+    | [], _ => Ok []
+    | _ :: _, [] => Raise IndexError
+    | g :: fs', x :: vs' => y <- vset re_match e g x ;; ys <- pos_tup fs' vs' ;; Ok (y :: ys)
+    end.
+
+  Lemma vset_tuple items u v :
+    vset re_match e (FTuple items u) v =
+    match v with
+    | PTuple l =>
+        _ <- uniq_check u l ;;
+        match items with
+        | [] => Raise Unmodelled
+        | [g] => r <- mapM (fun x => vset re_match e g x) l ;; Ok (PTuple r)
+        | _ => if negb (lenZ items =? lenZ l) then Raise ValueError
+               else r <- pos_tup items l ;; Ok (PTuple r)
+        end
+    | _ => Raise TypeError
+    end.
+  Proof. reflexivity. Qed.
+
+  (* element j, j+1, ... of the value against the field objects fl, in order; value[ind] raises IndexError *)
+  Fixpoint tup_idx (rec : nat -> pyval -> res pyval) (l : list pyval) (j : nat) (fl : list nat) : res (list pyval) :=
+    match fl with
+    | [] => Ok []
+    | f :: fl' =>
+        match nth_error l j with
+        | None => Raise IndexError
+        | Some x => y <- rec f x ;; ys <- tup_idx rec l (S j) fl' ;; Ok (y :: ys)
+        end
+    end.
+
+  Lemma tup_idx_pos : forall fs vs fpre vpre,
+      length fpre = length vpre ->
+      tup_idx (rec_of (fpre ++ fs)) (vpre ++ vs) (length fpre) (seq (length fpre) (length fs)) = pos_tup fs vs.
+  Proof.
+    induction fs as [|g fs IH]; intros vs fpre vpre Hl; [reflexivity|].
+    cbn [length seq tup_idx pos_tup]. rewrite Hl at 1. rewrite nth_error_app2 by lia. rewrite Nat.sub_diag.
+    destruct vs as [|x vs]; cbn [nth_error]; [reflexivity|].
+    unfold rec_of at 1. rewrite nth_error_app2 by lia. rewrite Nat.sub_diag. cbn [nth_error].
+    specialize (IH vs (fpre ++ [g]) (vpre ++ [x])).
+    rewrite <- !app_assoc in IH. cbn [app] in IH. rewrite !app_length in IH. cbn [length] in IH.
+    rewrite Nat.add_1_r in IH. rewrite IH by lia. reflexivity.
+  Qed.
+
+  Lemma tup_idx_repeat (rec : nat -> pyval -> res pyval) f : forall vs vpre,
+      tup_idx rec (vpre ++ vs) (length vpre) (repeat f (length vs)) = mapM (rec f) vs.
+  Proof.
+    induction vs as [|x vs IH]; intros vpre; [reflexivity|].
+    cbn [length repeat tup_idx mapM]. rewrite nth_error_app2 by lia. rewrite Nat.sub_diag. cbn [nth_error].
+    specialize (IH (vpre ++ [x])). rewrite <- app_assoc in IH. cbn [app] in IH.
+    rewrite app_length in IH. cbn [length] in IH. rewrite Nat.add_1_r in IH. rewrite IH. reflexivity.
+  Qed.
+
+  Lemma tuple_loop (rec : nat -> pyval -> res pyval) name items_obj sz u a im l fl_all :
+    name_ok name = true -> (length l <= length fl_all)%nat ->
+    forall fl j i k_after attrs acc nm,
+      i = Z.of_nat j -> validating attrs = true ->
+      match tup_idx rec l j fl with
+      | Ok r => exists attrs' nm', validating attrs' = true /\
+          Src_Tuple_set_loop1 re_match rec (coll_self name items_obj sz u a im) (OVal (PTuple l)) (OFlds fl_all) k_after
+            (enum_from i (map OFld fl)) (OVal (PList acc)) (OObj KScratch attrs) nm
+          = k_after (OVal (PList (acc ++ r))) (OObj KScratch attrs') nm'
+      | Raise x =>
+          Src_Tuple_set_loop1 re_match rec (coll_self name items_obj sz u a im) (OVal (PTuple l)) (OFlds fl_all) k_after
+            (enum_from i (map OFld fl)) (OVal (PList acc)) (OObj KScratch attrs) nm = Raise x
+      end.
+  Proof.
+    intros Hn Hlen. induction fl as [|f fl IH]; intros j i k_after attrs acc nm Hi Hv; subst i;
+      cbn [tup_idx map enum_from Src_Tuple_set_loop1].
+    - exists attrs, nm. rewrite app_nil_r. split; [exact Hv | reflexivity].
+    - sx2. destruct (nth_error l j) as [x|] eqn:E; cbn [bind]; [|reflexivity].
+      cbn [co_field_set]. rewrite Hv.
+      destruct (rec f x) as [nf|ex]; cbn [bind]; [|reflexivity].
+      sx2.
+      repeat progress cbn [co_slice co_val opt_val bind py_slice slice_index co_iadd_own co_iter_vals py_iter zint].
+      rewrite slice_from. rewrite skipn_all2 by lia. rewrite app_nil_r.
+      match goal with
+      | |- context [Src_Tuple_set_loop1 _ _ _ _ _ _ (enum_from ?i' _) _ (OObj KScratch ?at') ?nm'] =>
+          specialize (IH (S j) i' k_after at' (acc ++ [nf]) nm')
+      end.
+      rewrite validating_set in IH by (apply elem_name_ok; exact Hn).
+      specialize (IH ltac:(lia) Hv).
+      destruct (tup_idx rec l (S j) fl) as [r|ex]; cbn [bind].
+      + destruct IH as (attrs' & nm' & Hv' & IH). exists attrs', nm'. split; [exact Hv'|].
+        rewrite IH. rewrite <- app_assoc. reflexivity.
+      + exact IH.
+  Qed.
+  Lemma num_eqb_int a b : num_eqb (NInt a) (NInt b) = (a =? b).
+  Proof.
+    unfold num_eqb, Qeq_bool. cbn [num_to_Q Qnum Qden]. rewrite !Z.mul_1_r.
+    destruct (Z.eqb_spec a b) as [E|E].
+    - rewrite E. apply Zeq_is_eq_bool. reflexivity.
+    - destruct (Zeq_bool a b) eqn:Hz; [apply Zeq_bool_eq in Hz; contradiction | reflexivity].
+  Qed.
+
+  Definition tuple_declared (items : list field) : bool := negb (Nat.eqb (length items) 0).
+
+  Theorem generated_tuple : forall items u sz a im name nm iattrs v,
+      name_ok name = true -> tuple_declared items = true ->
+      set_result (Src_Tuple_set re_match (rec_of items) nm (coll_self name (OFlds (fids items)) sz u a im)
+                                (OObj KInst iattrs) (OVal v))
+      = vset re_match e (FTuple items u) v.
+  Proof.
+    intros items u sz a im name nm iattrs v Hn Hd.
+    rewrite vset_tuple. unfold Src_Tuple_set.
+    sx2. change co_no_self with no_self. rewrite generated_verify_tuple.
+    destruct v; try reflexivity.
+    destruct (uniq_check u l) as [[]|x1]; cbn [bind]; [|reflexivity].
+    assert (Hfl : length (fids items) = length items) by apply seq_length.
+    rewrite !Hfl.
+    repeat progress cbn [py_len bind co_val py_ne py_eq as_num zint py_and].
+    rewrite num_eqb_int. unfold lenZ'. fold (lenZ items). fold (lenZ l).
+    destruct items as [|g [|g2 rest]]; [discriminate Hd | |].
+    - (* one item field: every element against it *)
+      change (Z.of_nat (length [g])) with 1. change (lenZ [g]) with 1. change (1 <? 1) with false.
+      assert (Hc : (if negb (1 =? lenZ l) then Ok false else @Ok bool false) = Ok false) by (destruct (negb _); reflexivity).
+      rewrite Hc. cbn [bind].
+      unfold fids. cbn [length seq co_mul as_int]. rewrite concat_repeat_single.
+      cbn [co_iter bind]. unfold co_enumerate, lenZ. rewrite Nat2Z.id.
+      match goal with
+      | |- context [Src_Tuple_set_loop1 _ _ ?so _ _ ?ka _ _ _ _] =>
+          pose proof (tuple_loop (rec_of [g]) name (OFlds [0%nat]) sz u a im l (repeat 0%nat (length l)) Hn
+                        ltac:(rewrite repeat_length; lia) (repeat 0%nat (length l)) 0%nat 0 ka scratch0 [] nm
+                        eq_refl scratch0_validating) as H
+      end.
+      pose proof (tup_idx_repeat (rec_of [g]) 0%nat l []) as Hz. cbn [app length] in Hz. rewrite Hz in H. clear Hz.
+      change (rec_of [g] 0%nat) with (fun x => vset re_match e g x) in H.
+      destruct (mapM (fun x => vset re_match e g x) l) as [r|ex]; cbn [bind].
+      + destruct H as (attrs' & nm' & _ & H). rewrite H.
+        cbn [co_call co_iter_vals py_iter bind set_result app]. reflexivity.
+      + rewrite H. reflexivity.
+    - (* several item fields: positional *)
+      assert (Hgt : (1 <? lenZ (g :: g2 :: rest)) = true).
+      { unfold lenZ. cbn [length]. apply Z.ltb_lt. lia. }
+      rewrite Hgt.
+      destruct (lenZ (g :: g2 :: rest) =? lenZ l) eqn:Hlen; cbn [negb bind]; [|reflexivity].
+      cbn [co_iter bind]. unfold co_enumerate, fids.
+      apply Z.eqb_eq in Hlen. unfold lenZ in Hlen.
+      match goal with
+      | |- context [Src_Tuple_set_loop1 _ _ _ _ _ ?ka _ _ _ _] =>
+          pose proof (tuple_loop (rec_of (g :: g2 :: rest)) name (OFlds (seq 0 (length (g :: g2 :: rest)))) sz u a im l
+                        (seq 0 (length (g :: g2 :: rest))) Hn
+                        ltac:(rewrite seq_length; lia) (seq 0 (length (g :: g2 :: rest))) 0%nat 0 ka scratch0 [] nm
+                        eq_refl scratch0_validating) as H
+      end.
+      pose proof (tup_idx_pos (g :: g2 :: rest) l [] [] eq_refl) as Hz. cbn [app] in Hz.
+      change (length (@nil field)) with 0%nat in Hz. rewrite Hz in H. clear Hz.
+      destruct (pos_tup (g :: g2 :: rest) l) as [r|ex]; cbn [bind].
+      + destruct H as (attrs' & nm' & _ & H). rewrite H.
+        cbn [co_call co_iter_vals py_iter bind set_result app]. reflexivity.
+      + rewrite H. reflexivity.
+  Qed.
 End Bridge.
